@@ -12,6 +12,8 @@ CONSTANTS
   CompileMode = "stated"
   Inners = 0
   ScopeMode = "stated"
+  Doors = 0
+  HookMode = "stated"
 INIT TInit
 NEXT TNext
 INVARIANT TypeInv
